@@ -193,34 +193,42 @@ pub fn parse_filesize_exact(s: &str) -> Option<(u128, u128)> {
 
     let string = s.to_ascii_lowercase().replace(' ', "");
 
-    let (number, multiplier, fraction_allowed) = match UNITS
+    let (number, multiplier) = match UNITS
         .iter()
         .find(|(suffix, _)| string.len() > suffix.len() && string.ends_with(suffix))
     {
-        Some((suffix, multiplier)) => (&string[..string.len() - suffix.len()], *multiplier, *suffix != "b"),
-        None => (string.as_str(), 1, false),
+        Some((suffix, multiplier)) => (&string[..string.len() - suffix.len()], *multiplier),
+        None if string.contains('.') => return None,
+        None => (string.as_str(), 1),
     };
 
-    let (int_part, frac_part) = match number.split_once('.') {
-        Some((int_part, frac_part)) if fraction_allowed => (int_part, frac_part),
-        Some(_) => return None,
-        None => (number, ""),
-    };
+    let (int_part, frac_part) = number.split_once('.').unwrap_or((number, ""));
 
     if int_part.is_empty() && frac_part.is_empty()
         || !int_part.bytes().all(|b| b.is_ascii_digit())
         || !frac_part.bytes().all(|b| b.is_ascii_digit())
-        || int_part.len() > 20
-        || frac_part.len() > 15
     {
         return None;
+    }
+
+    // digits beyond what any size needs change nothing (the value saturates, the fraction is cut)
+    let frac_part = &frac_part[..frac_part.len().min(18)];
+    let int_part = int_part.trim_start_matches('0');
+    if int_part.len() > 20 {
+        return Some((u128::MAX, 1));
     }
 
     let denominator = 10u128.pow(frac_part.len() as u32);
     let int_value = if int_part.is_empty() { 0 } else { int_part.parse::<u128>().ok()? };
     let frac_value = if frac_part.is_empty() { 0 } else { frac_part.parse::<u128>().ok()? };
 
-    Some(((int_value * denominator + frac_value) * multiplier, denominator))
+    let numerator = int_value
+        .checked_mul(denominator)
+        .and_then(|value| value.checked_add(frac_value))
+        .and_then(|value| value.checked_mul(multiplier))
+        .unwrap_or(u128::MAX);
+
+    Some((numerator, denominator))
 }
 
 /// A size literal in whole bytes (a fraction of a byte is dropped).
